@@ -63,6 +63,24 @@ def gen_case(r, front, framing, uniq, data_only=False, max_per_read=3, allow_for
     return {'front': front, 'framing': framing, 'layout': layout, 'flags': flags, 'reads': reads}
 
 
+def add_delivery(r, case):
+    """how the reads reach the front-end: datagrams from up to three different senders, and (asyncio front-ends) groups
+    of reads that are queued before the handler task gets to run"""
+    n = len(case['reads'])
+    d = {}
+    if r.random() < 0.7:
+        d['peers'] = [r.randrange(3) for _ in range(n)]
+    if r.random() < 0.7:
+        burst, left = [], n
+        while left > 0:
+            k = r.choice([1, 2, 2, 3, left])
+            burst.append(min(k, left))
+            left -= burst[-1]
+        d['burst'] = burst
+    case['delivery'] = d
+    return case
+
+
 def build_reads(case):
     """reference-built byte chunks; binary request frames are bumped until delimiter free"""
     from .props.c04 import make_frame
@@ -104,7 +122,12 @@ def regions(case):
         out.add('tls-framer-keyerror-in-multi-unit-mode')
     units_seen_by_framer = framer_units(front, hosted, flags)
     filter_on = multi and 0 not in units_seen_by_framer and 255 not in units_seen_by_framer
-    for rd in case['reads']:
+    for ri, rd in enumerate(case['reads']):
+        for idx, op, uid, lay in case.get('reconfig', []):
+            if idx == ri and multi:
+                hosted = sorted((set(hosted) - {uid}) if op == 'del' else (set(hosted) | {uid}))
+                units_seen_by_framer = framer_units(front, hosted, flags)
+                filter_on = 0 not in units_seen_by_framer and 255 not in units_seen_by_framer
         if len(rd) >= 2:
             if framing == 'rtu':
                 out.add('rtu-one-frame-per-call')
@@ -124,12 +147,15 @@ def regions(case):
     return out
 
 
-def expectations(case, model):
+def expectations(case, model, new_units=None):
     """per request frame, in order: dict(kind, tid, unit, fc, pdu)"""
     flags = case['flags']
     exp = []
     deaf = False
-    for rd in case['reads']:
+    for ri, rd in enumerate(case['reads']):
+        for k, (idx, op, uid, lay) in enumerate(case.get('reconfig', [])):
+            if idx == ri:
+                model.reconfigure(op, uid, new_units[k])
         for unit, tid, m in rd:
             kind, val = model.react(unit, m, broadcast_enable=flags.get('broadcast_enable', False),
                                     ignore_missing=flags.get('ignore_missing_slaves', False))
@@ -147,7 +173,23 @@ def execute(case):
     repo.reset_globals()
     ctx, model, blocks = SM.build(case['layout'])
     reads = build_reads(case)
-    res = FE.feed(case['front'], case['framing'], ctx, reads, **case['flags'])
+    new_units = {}
+    if case.get('reconfig'):
+        # run-time reconfiguration of the server context between two reads (context[uid] = ..., del context[uid])
+        fed = []
+        for ri, chunk in enumerate(reads):
+            for k, (idx, op, uid, lay) in enumerate(case['reconfig']):
+                if idx == ri:
+                    def ev(k=k, op=op, uid=uid, lay=lay):
+                        new_units[k] = SM.reconfigure(op, uid, lay, case['layout'], ctx, blocks)
+                    fed.append(ev)
+            fed.append(chunk)
+    else:
+        fed = reads
+    res = FE.feed(case['front'], case['framing'], ctx, fed, **dict(case['flags'], **case.get('delivery', {})))
+    for k, (idx, op, uid, lay) in enumerate(case.get('reconfig', [])):
+        if k not in new_units:            # the front-end stopped reading before the event: apply it anyway (keeps model and store comparable)
+            new_units[k] = SM.reconfigure(op, uid, lay, case['layout'], ctx, blocks)
     framing = case['framing']
     if framing == 'tls':
         frames, err = [], None
@@ -170,9 +212,20 @@ def execute(case):
             if e is not None or pos != len(dg) or len(fs) != 1:
                 err = err or 'datagram %s is not exactly one response frame' % dg.hex()[:60]
             frames += fs
-            if addr != FE.PEER:
-                err = err or 'datagram sent to %r instead of the sender %r' % (addr, FE.PEER)
-    exp = expectations(case, model)
+            peers = case.get('delivery', {}).get('peers')
+            if not peers:
+                if addr != FE.PEER:
+                    err = err or 'datagram sent to %r instead of the sender %r' % (addr, FE.PEER)
+            elif len(fs) == 1:
+                # one request per datagram, tids unique: the answer belongs to the sender of the datagram with that tid
+                senders = {}
+                for i, rd in enumerate(case['reads']):
+                    for fr in rd:
+                        senders.setdefault(fr[1], set()).add(FE.PEERS[peers[i]] if i < len(peers) else FE.PEER)
+                want = senders.get(fs[0].tid)
+                if want is not None and addr not in want:
+                    err = err or 'answer to request tid=%s sent to %r instead of its sender %r' % (fs[0].tid, addr, sorted(want))
+    exp = expectations(case, model, new_units)
     repo.reset_globals()
     return {'res': res, 'model': model, 'blocks': blocks, 'reads': reads, 'out_frames': frames, 'parse_error': err, 'exp': exp}
 
